@@ -12,6 +12,7 @@ REPO = os.environ.get("LUNAR_REPO", "/repo")
 GOENV = dict(os.environ, GOFLAGS="-mod=mod", GOPROXY="off", GOSUMDB="off", GOTOOLCHAIN="local")
 GOENV.pop("GOWORK", None)
 GO_MODS = ["proxy/src/services/lunar-engine", "proxy/src/services/aggregation-output-plugin"]
+SHAPE_EXTRA_MODS = ["proxy/src/libs/toolkit-core", "proxy/src/libs/shared-model"]
 
 
 def sh(cmd, cwd=None, env=None, timeout=None):
@@ -72,4 +73,9 @@ def failing(verdicts):
 def rename_locals(tree):
     """Behaviour-preserving variant: every receiver/parameter/local gets another name."""
     rc, out = sh([os.path.join(VERIF, "bin", "renamer"), "-repo", tree] + GO_MODS, env=GOENV)
-    return rc == 0, out.strip()[-300:]
+    if rc != 0:
+        return False, out.strip()[-300:]
+    # ... and the sources are reshaped (operands of comparisons swapped, if/else flipped, messages
+    # reworded, keyed literals reordered, x++ -> x += 1; checker/cmd/renamer/shape.go)
+    rc2, out2 = sh([os.path.join(VERIF, "bin", "renamer"), "-repo", tree, "-shape", "eq,else,msg,inc,ord,lit,and"] + GO_MODS + SHAPE_EXTRA_MODS, env=GOENV)
+    return rc2 == 0, (out.strip()[-200:] + "; " + out2.strip()[-200:])
